@@ -159,6 +159,7 @@ func (P *Program) registerIntrinsics() {
 	P.registerWriteStmts()
 	P.registerGin()
 	P.registerGinCompare()
+	P.registerViper()
 	P.registerCSV()
 }
 
